@@ -292,6 +292,9 @@ def user_specs(draw):
             'logicals_x': [logical() for _ in range(k)],
             'logicals_z': [logical() for _ in range(k)],
             'coord_style': draw(st.sampled_from(['int', 'int', 'half', 'npint'])),
+            'stored_dicts': draw(st.booleans()),
+            'deformable': draw(st.booleans()), 'deform_now': draw(st.booleans()),
+            'hadamard_on': draw(st.lists(st.integers(0, n - 1), max_size=n, unique=True)),
             'rseed': draw(st.integers(0, 2**31 - 1))}
 
 
@@ -377,6 +380,8 @@ def eval_case(case):
         shared = sum(1 for v in cnt.values() if v >= 2)
         labels = ['user', 'user-css' if info.get('css') else 'user-noncss',
                   f'user-dim{case["dim"]}', f"coords:{case.get('coord_style', 'int')}"]
+        if case.get('deformable') and case.get('deform_now'):
+            labels.append('user-deformed' + (',stored-dicts' if case.get('stored_dicts') else ''))
         return {'fails': fails, 'nontrivial': shared >= 2, 'labels': labels}
 
     code = domain.build_from_case(case)
